@@ -241,7 +241,18 @@ func c14ImageCheck(cs c14ImgCase) (bad bool, msg string) {
 		rect = m.Rect
 		src = m
 	}
-	dst := newConcrete(cs.Dst, rect)
+	// geometry: in a third of the cases the source is a window of a larger image and the
+	// destination has another origin and is larger (writes go to dst.Min + (p - src.Min))
+	dstRect := rect
+	shifted := cs.Seed%3 == 0
+	if shifted {
+		if sub, ok := src.(subImager); ok && cs.Src != "NYCbCrA" {
+			rect = image.Rect(rect.Min.X+3, rect.Min.Y+5, rect.Max.X-2, rect.Max.Y-1)
+			src = sub.SubImage(rect)
+		}
+		dstRect = image.Rect(40, -7, 40+rect.Dx()+4, -7+rect.Dy()+3)
+	}
+	dst := newConcrete(cs.Dst, dstRect)
 	rng.Fill(pixOf(dst)) // a reused destination: every pixel must be overwritten, transparent ones too
 	if cs.Fn == "LineariseImage" {
 		s.LineariseImage(dst, src, cs.Par)
@@ -253,26 +264,27 @@ func c14ImageCheck(cs c14ImgCase) (bad bool, msg string) {
 			_, _, _, ain := src.At(x, y).RGBA()
 			var aout uint32
 			var o color.RGBA64
+			dx, dy := dstRect.Min.X+(x-rect.Min.X), dstRect.Min.Y+(y-rect.Min.Y)
 			switch d := dst.(type) {
 			case *image.RGBA64:
-				o = d.RGBA64At(x, y)
+				o = d.RGBA64At(dx, dy)
 				aout = uint32(o.A)
 				if cs.Fn == "LineariseImage" && cs.Src != "NRGBA64" && cs.Src != "NYCbCrA" && (o.R > o.A || o.G > o.A || o.B > o.A) {
 					return true, fmt.Sprintf("%+v: pixel (%d,%d) %v linearised to %v, not validly premultiplied", cs, x, y, src.At(x, y), o)
 				}
 			case *image.NRGBA64:
-				aout = uint32(d.NRGBA64At(x, y).A)
+				aout = uint32(d.NRGBA64At(dx, dy).A)
 			case *image.RGBA:
-				aout, ain = uint32(d.RGBAAt(x, y).A), ain>>8
+				aout, ain = uint32(d.RGBAAt(dx, dy).A), ain>>8
 			case *image.NRGBA:
-				aout, ain = uint32(d.NRGBAAt(x, y).A), ain>>8
+				aout, ain = uint32(d.NRGBAAt(dx, dy).A), ain>>8
 			}
 			if aout != ain {
 				return true, fmt.Sprintf("%+v: pixel (%d,%d) alpha %d became %d", cs, x, y, ain, aout)
 			}
 			if _, _, _, a16 := src.At(x, y).RGBA(); a16 == 0 {
-				if r2, g2, b2, a2 := dst.At(x, y).RGBA(); r2|g2|b2|a2 != 0 {
-					return true, fmt.Sprintf("%+v: transparent source pixel (%d,%d) left %v in the destination, want the zero colour", cs, x, y, dst.At(x, y))
+				if r2, g2, b2, a2 := dst.At(dx, dy).RGBA(); r2|g2|b2|a2 != 0 {
+					return true, fmt.Sprintf("%+v: transparent source pixel (%d,%d) left %v in the destination, want the zero colour", cs, x, y, dst.At(dx, dy))
 				}
 			}
 		}
